@@ -215,17 +215,19 @@ Theorem c12_src_ring_step : forall k i, 0 <= k < 63 -> 0 <= i < 2 ^ k ->
 Proof. exact src_ring_step. Qed.
 Print Assumptions c12_src_ring_step.
 
-(* the head of Rotate (early returns, n %= q.count, modBits, the full-buffer fast path) is the
-   translated source's: the model is "run the fragment; if it returned, the deque has the head
-   and tail it assigned; otherwise move the elements (rotate_moves) with its n and modBits" *)
-Theorem c12_src_rotate : forall (A : Type) (nilv : A) (d : @deque A) n0,
-  cap d < 2 ^ 63 -> - 2 ^ 62 < count d < 2 ^ 62 -> - 2 ^ 63 <= n0 < 2 ^ 63 ->
-  - 2 ^ 62 < head d < 2 ^ 62 -> - 2 ^ 62 < tail d < 2 ^ 62 ->
-  rotate nilv d n0 =
-  match go_Deque_Rotate_prefix (head d) (tail d) (count d) (cap d) n0 with
-  | Lib.GoSem.Ok (Lib.GoSem.Returned _ (h, t)) => Some (mkDeque (buf d) h t (count d) (minCap d))
-  | Lib.GoSem.Ok (Lib.GoSem.Reached (n, modBits, _, _)) => rotate_moves nilv d n modBits
-  | Lib.GoSem.Panic | Lib.GoSem.OutOfFuel => None
+(* ALL of Rotate - the early returns, n %= q.count, modBits, the full-buffer fast path and the
+   two element-moving loops with their writes to q.buf, q.head, q.tail - is the translated
+   source's (interface{} values are tokens: the model at A := Z, nilv := 0): whichever return
+   statement is reached, the deque then has the head, tail and buffer the source assigned
+   ([rot_state]); the source panics exactly when the model crashes; it needs at most |count|
+   iterations *)
+Theorem c12_src_rotate : forall (d : @deque Z) n0 fuel,
+  0 < cap d < 2 ^ 62 -> - 2 ^ 62 < count d < 2 ^ 62 -> - 2 ^ 63 <= n0 < 2 ^ 63 ->
+  - 2 ^ 62 < head d < 2 ^ 62 -> - 2 ^ 62 < tail d < 2 ^ 62 -> (Z.to_nat (Z.abs (count d)) < fuel)%nat ->
+  match go_Deque_Rotate_prefix fuel (head d) (tail d) (buf d) (count d) n0 with
+  | Lib.GoSem.Ok r => let '(h, t, b) := rot_state r in rotate 0 d n0 = Some (mkDeque b h t (count d) (minCap d))
+  | Lib.GoSem.Panic => rotate 0 d n0 = None
+  | Lib.GoSem.OutOfFuel => False
   end.
-Proof. exact @src_rotate. Qed.
+Proof. exact src_rotate. Qed.
 Print Assumptions c12_src_rotate.
